@@ -396,6 +396,14 @@ def history_cases(tier, seed):
                     kind = 'slice'
                 seq.append((rng.choice(cfg.get_calls()), rng.choice(atoms), kind))
             out.append((cfg, mode, seq, rng.randrange(1 << 30)))
+            alts = [a for a in atoms if '~alt' in a]
+            if alts and mode == 'eval':
+                # one instance, alternating event shapes: hidden per-instance state keyed on nothing / on the wrong thing shows here
+                base = [a for a in atoms if '~alt' not in a and '!edge' not in a][0]
+                calls_ = cfg.get_calls()
+                inv = 'inverse' if 'inverse' in calls_ else calls_[0]
+                seq2 = [(calls_[0], base, 'contig'), (calls_[0], alts[0], 'contig'), (inv, base, 'contig'), (inv, alts[0], 'contig'), (calls_[0], base, 'contig')]
+                out.append((cfg, mode, seq2, rng.randrange(1 << 30)))
     return out
 
 
